@@ -509,6 +509,14 @@ func Join(A, B *State, live func(Atom) bool, widen bool) *State {
 			}
 		}
 	}
+	for k, v := range A.loadMemo {
+		if w, ok := B.loadMemo[k]; ok && w == v {
+			if J.loadMemo == nil {
+				J.loadMemo = map[string]Atom{}
+			}
+			J.loadMemo[k] = v
+		}
+	}
 	// non-numeric facts
 	for k, v := range A.nonnil {
 		if v && B.nonnil[k] {
